@@ -414,6 +414,24 @@ def sub_addr(case):
         for wt, (st, enc) in (('legacy', STD[0]), ('p2sh-segwit', STD[1]), ('segwit', STD[2])):
             ok, got = _call(lambda: HDKey(d, network=net, compressed=c, witness_type=wt).address())
             judge('HDKey(%s).address()' % wt, st, enc, pub, ok, got, det)
+            # the address object read FIRST on a fresh key (before any address() call), also on the public copy, and
+            # the two ways of asking in both orders on one object
+            ok, got = _call(lambda: HDKey(d, network=net, compressed=c, witness_type=wt).address_obj.address)
+            judge('HDKey(%s).address_obj_first' % wt, st, enc, pub, ok, got, det)
+            ok, got = _call(lambda: HDKey(d, network=net, compressed=c, witness_type=wt).public().address_obj.address)
+            judge('HDKey(%s).public().address_obj_first' % wt, st, enc, pub, ok, got, det)
+
+            def both(order):
+                k = HDKey(d, network=net, compressed=c, witness_type=wt)
+                a = (k.address_obj.address, k.address()) if order else (k.address(), k.address_obj.address)
+                if a[0] != a[1]:
+                    raise ValueError('address() and address_obj disagree on one object: %s %s' % a)
+                return a[0]
+            for order in (0, 1):
+                ok, got = _call(lambda: both(order))
+                judge('HDKey(%s).address+address_obj|order%d' % (wt, order), st, enc, pub, ok, got, det)
+        ok, got = _call(lambda: Key(d, network=net, compressed=c).address_obj.address)
+        judge('Key.address_obj_first', 'p2pkh', 'base58', pub, ok, got, det)
         ok, got = _call(lambda: Key(d, network=net, compressed=c).address_uncompressed())
         judge('Key.address_uncompressed', 'p2pkh', 'base58', secp.ser(pt, False), ok, got, det)
         # hashed_data / encoding functions: the exact hash is supplied
